@@ -1,7 +1,7 @@
+import Mdsort.Proofs.Opts
 import Mdsort.Proofs.World
 import Mdsort.Proofs.WorldDryStdin
 import Mdsort.Proofs.WorldStdinExample
-import Mdsort.Proofs.Opts
 
 /-!
 # C05 - dry run (-d) and syntax check (-n) never change anything
